@@ -387,12 +387,11 @@ Proof.
 Qed.
 
 (* ---------- a load at module level ---------- *)
-Lemma imm_u : forall T BS I0 exp lm acc ex s e tr x a Mdyn Mb,
-  Inv2 exp lm [] acc [] ex (er s) e tr -> T = l_b lm -> UI T BS I0 exp s Mdyn tr -> EnvU e Mb -> fdyn Mb = Mdyn ->
-  UI T BS I0 exp (load s (stack_of [lm]) (x :: a)) Mdyn (tr ++ [(lineno s, x, resolve x e)]).
+Lemma imm_u : forall T BS I0 exp lm s tr x a Mdyn Mb,
+  in_fd s = false -> T = l_b lm -> UI T BS I0 exp s Mdyn tr -> fdyn Mb = Mdyn ->
+  UI T BS I0 exp (load s (stack_of [lm]) (x :: a)) Mdyn (tr ++ [(lineno s, x, resolve x [Mb])]).
 Proof.
-  intros T BS I0 exp lm acc ex s e tr x a Mdyn Mb HI HT HU HEU Hdyn. subst T. set (T := l_b lm) in *.
-  pose proof (Inv2_fd _ _ _ _ _ _ _ _ _ HI) as Hfd. cbn in Hfd. change (in_fd (er s)) with (in_fd s) in Hfd.
+  intros T BS I0 exp lm s tr x a Mdyn Mb Hfd HT HU Hdyn. subst T. set (T := l_b lm) in *.
   unfold load. rewrite Hfd. unfold check_load.
   pose proof (needs_marks s (stack_of [lm]) (x :: a)) as HM.
   assert (Hold : forall s1 (b : bool), Marks s s1 ->
@@ -400,7 +399,6 @@ Proof.
   { intros s1 b M1. destruct b. 2: eapply UI_marks; eauto.
     destruct (add_missing_spec s1 (stack_of [lm]) (lineno s) (x :: a)) as [E _]. rewrite E.
     apply (UI_same T BS I0 exp s1); try reflexivity. auto. eapply UI_marks; eauto. }
-  pose proof (i_env _ _ _ _ _ _ _ _ _ HI) as HE. destruct e as [|f [|? ?]]; try contradiction. cbn in HEU. subst f.
   rewrite (resolve_module x Mb). rewrite Hdyn.
   destruct (lookup_b x Mdyn) as [[li ii|]|] eqn:El.
   - (* bound to an import: its checker is in the top scope and gets marked *)
@@ -581,4 +579,518 @@ Proof.
            assert (existsb (fun i => dict_has (scope_dict (er s) i) [x]) stk = true).
            { apply existsb_exists. exists (l_b l). split; auto. }
            congruence.
+Qed.
+
+(* ---------- stores ---------- *)
+Lemma store_true_noreport : forall s stk n v,
+  (forall c, dict_get (scope_dict s (top stk)) [n] <> Some (Chk c)) ->
+  store true s stk [n] v = set_in_scope s (top stk) [n] v.
+Proof.
+  intros s stk n v H. unfold store. rewrite proper_prefixes_single. cbn [fold_left].
+  destruct (dict_get (scope_dict s (top stk)) [n]) as [[|c|cs]|] eqn:E; auto. exfalso. apply (H c). reflexivity.
+Qed.
+
+Lemma set_in_scope_same_fields : forall s i k v,
+  checkers (set_in_scope s i k v) = checkers s /\ unused (set_in_scope s i k v) = unused s /\
+  deferred (set_in_scope s i k v) = deferred s.
+Proof. intros. unfold set_in_scope. destruct (get_scope (scopes s) i). cbn. auto. Qed.
+
+Lemma UI_set_other : forall T BS I0 exp s Mdyn tr i n, i <> T ->
+  UI T BS I0 exp s Mdyn tr -> UI T BS I0 exp (set_in_scope s i [n] Plain) Mdyn tr.
+Proof.
+  intros T BS I0 exp s Mdyn tr i n Hi [P1 P2 P3 P4 P40 P5 P6 P7 P8].
+  destruct (set_in_scope_same_fields s i [n] Plain) as (Ec & Eu & Ed).
+  assert (EsT : scope_dict (set_in_scope s i [n] Plain) T = scope_dict s T).
+  { rewrite scope_dict_set_in_scope. destruct (Nat.eqb i T) eqn:E; auto. apply Nat.eqb_eq in E. contradiction. }
+  assert (Eck : forall c, checker_at (set_in_scope s i [n] Plain) c = checker_at s c) by (intro c; unfold checker_at; rewrite Ec; reflexivity).
+  constructor; auto.
+  - intros j k v Hj Hin. rewrite scope_dict_set_in_scope in Hin. destruct (Nat.eqb i j) eqn:E.
+    + apply Nat.eqb_eq in E. subst j. eapply dict_set_In_plain; [|exact Hin]. intros k0 e0 H0. eapply P1; eauto.
+    + eapply P1; eauto.
+  - intros k v. rewrite EsT, Ec. apply P2.
+  - intros x c. rewrite EsT, Eck. apply P3.
+  - intros x l0 i0 H. destruct (P4 x l0 i0 H) as (c & A & B & C). exists c. rewrite EsT, Eck. auto.
+  - intros x. rewrite EsT. apply P40.
+  - congruence.
+  - intros ln x l0 i0 H. destruct (P8 ln x l0 i0 H) as [(c & A & B & C & D)|[F (a & stk & ln' & Hin & Hp)]].
+    + left. exists c. rewrite Ec, Eck. auto.
+    + right. split. exact F. exists a, stk, ln'. split. rewrite Ed. exact Hin. exact Hp.
+Qed.
+
+Lemma dotted_single_eqb : forall x n, dotted_eqb [x] [n] = N.eqb x n.
+Proof. intros. cbn. apply andb_true_r. Qed.
+
+Lemma In_dict_set_single : forall d n v k e, (forall k0 v0, In (k0, v0) d -> exists y, k0 = [y]) ->
+  In (k, e) (dict_set d [n] v) -> (exists y, k = [y]) /\ (In (k, e) d \/ e = v).
+Proof.
+  intros d n v k e Hk Hin. apply dict_set_In in Hin as [Hin|[[-> ->]|(k0 & E & -> & ->)]].
+  - split. eapply Hk; eauto. auto.
+  - split; eauto.
+  - apply dotted_eqb_eq in E. subst k0. split; eauto.
+Qed.
+
+(* a non-import binding at module level *)
+Lemma UI_set_top_plain : forall T BS I0 exp s Mdyn tr n, Once BS (others I0) ->
+  In (n, BOther) BS -> UI T BS I0 exp s Mdyn tr ->
+  (forall c, dict_get (scope_dict s T) [n] <> Some (Chk c)) /\
+  UI T BS I0 exp (set_in_scope s T [n] Plain) ((n, BOther) :: Mdyn) tr.
+Proof.
+  intros T BS I0 exp s Mdyn tr n HO Hin HU. pose proof HU as [P1 P2 P3 P4 P40 P5 P6 P7 P8].
+  assert (Hno : forall c, dict_get (scope_dict s T) [n] <> Some (Chk c)).
+  { intros c Hc. apply P3 in Hc. apply P6 in Hc. destruct (HO _ _ _ Hc) as [H1 _].
+    assert (BOther <> BImp (c_line (checker_at s c)) (c_imp (checker_at s c))) by discriminate.
+    pose proof (count_two BS n _ _ Hin Hc H). lia. }
+  split. exact Hno.
+  destruct (set_in_scope_same_fields s T [n] Plain) as (Ec & Eu & Ed).
+  assert (EsT : scope_dict (set_in_scope s T [n] Plain) T = dict_set (scope_dict s T) [n] Plain).
+  { rewrite scope_dict_set_in_scope, Nat.eqb_refl. reflexivity. }
+  assert (Eck : forall c, checker_at (set_in_scope s T [n] Plain) c = checker_at s c) by (intro c; unfold checker_at; rewrite Ec; reflexivity).
+  assert (Hget : forall x, dict_get (dict_set (scope_dict s T) [n] Plain) [x] = if N.eqb x n then Some Plain else dict_get (scope_dict s T) [x]).
+  { intro x. rewrite dict_get_set, dotted_single_eqb. reflexivity. }
+  constructor.
+  - intros j k v Hj Hi. rewrite scope_dict_set_in_scope in Hi. destruct (Nat.eqb T j) eqn:E.
+    apply Nat.eqb_eq in E. congruence. eapply P1; eauto.
+  - intros k v Hi. rewrite EsT in Hi. rewrite Ec.
+    apply In_dict_set_single in Hi as [Hs [Hi| ->]]. split. exact Hs. apply (P2 _ _ Hi). split; auto.
+    intros k0 v0 H0. apply (P2 _ _ H0).
+  - intros x c. rewrite EsT, Hget, Eck. cbn [lookup_b]. destruct (N.eqb x n). discriminate. apply P3.
+  - intros x l i. cbn [lookup_b]. rewrite EsT, Hget. destruct (N.eqb x n). discriminate. intro H.
+    destruct (P4 x l i H) as (c & A & B & C). exists c. rewrite Eck. auto.
+  - intros x. rewrite EsT, Hget. cbn [lookup_b]. destruct (N.eqb x n). reflexivity. apply P40.
+  - intros x l i Hf. cbn [lookup_b]. destruct (N.eqb x n) eqn:E.
+    + apply N.eqb_eq in E. subst x. pose proof (once_unique BS I0 n l i BOther HO Hf Hin). discriminate.
+    + apply P5. exact Hf.
+  - intros x l i. cbn [lookup_b]. destruct (N.eqb x n). discriminate. apply P6.
+  - congruence.
+  - intros ln x l i H. destruct (P8 ln x l i H) as [(c & A & B & C & D)|[F (a & stk & ln' & Hi & Hp)]].
+    + left. exists c. rewrite Ec, Eck. auto.
+    + right. split. exact F. exists a, stk, ln'. split. rewrite Ed. exact Hi. exact Hp.
+Qed.
+
+(* an import binding at module level: a new checker *)
+Lemma UI_set_top_imp : forall T BS I0 exp s Mdyn tr a ln imp, Once BS (others I0) ->
+  In (a, BImp ln imp) BS -> dict_get (scope_dict s T) [a] = None -> UI T BS I0 exp s Mdyn tr ->
+  UI T BS I0 exp (set_in_scope (with_checkers s (checkers s ++ [mkChecker imp ln false])) T [a] (Chk (length (checkers s))))
+     ((a, BImp ln imp) :: Mdyn) tr.
+Proof.
+  intros T BS I0 exp s Mdyn tr a ln imp HO Hin Hnone [P1 P2 P3 P4 P40 P5 P6 P7 P8].
+  set (s0 := with_checkers s (checkers s ++ [mkChecker imp ln false])). set (cid := length (checkers s)).
+  destruct (set_in_scope_same_fields s0 T [a] (Chk cid)) as (Ec & Eu & Ed).
+  assert (EsT : scope_dict (set_in_scope s0 T [a] (Chk cid)) T = dict_set (scope_dict s T) [a] (Chk cid)).
+  { rewrite scope_dict_set_in_scope, Nat.eqb_refl. reflexivity. }
+  assert (Ecs : checkers (set_in_scope s0 T [a] (Chk cid)) = checkers s ++ [mkChecker imp ln false]) by (rewrite Ec; reflexivity).
+  assert (Eold : forall c, c < cid -> checker_at (set_in_scope s0 T [a] (Chk cid)) c = checker_at s c).
+  { intros c Hc. unfold checker_at. rewrite Ecs. apply app_nth1. exact Hc. }
+  assert (Enew : checker_at (set_in_scope s0 T [a] (Chk cid)) cid = mkChecker imp ln false).
+  { unfold checker_at. rewrite Ecs. rewrite app_nth2 by (unfold cid; lia). unfold cid. rewrite Nat.sub_diag. reflexivity. }
+  assert (Hget : forall x, dict_get (dict_set (scope_dict s T) [a] (Chk cid)) [x] = if N.eqb x a then Some (Chk cid) else dict_get (scope_dict s T) [x]).
+  { intro x. rewrite dict_get_set, dotted_single_eqb. reflexivity. }
+  assert (Hclt : forall x c, dict_get (scope_dict s T) [x] = Some (Chk c) -> c < cid).
+  { intros x c H. apply dict_get_In' in H. destruct (P2 _ _ H) as [_ [D|(c' & D & Hl)]]. discriminate. injection D as <-. exact Hl. }
+  constructor.
+  - intros j k v Hj Hi. rewrite scope_dict_set_in_scope in Hi. destruct (Nat.eqb T j) eqn:E.
+    apply Nat.eqb_eq in E. congruence. eapply P1; eauto.
+  - intros k v Hi. rewrite EsT in Hi. rewrite Ecs, app_length. cbn [length].
+    apply In_dict_set_single in Hi as [Hs [Hi| ->]].
+    + split. exact Hs. destruct (P2 _ _ Hi) as [_ [D|(c & D & Hl)]]; auto. right. exists c. split; auto. lia.
+    + split. exact Hs. right. exists cid. split; auto. fold cid. lia.
+    + intros k0 v0 H0. apply (P2 _ _ H0).
+  - intros x c. rewrite EsT, Hget. cbn [lookup_b]. destruct (N.eqb x a) eqn:E.
+    + intro H. injection H as <-. rewrite Enew. reflexivity.
+    + intro H. rewrite Eold by (eapply Hclt; eauto). apply P3. exact H.
+  - intros x l i. cbn [lookup_b]. rewrite EsT, Hget. destruct (N.eqb x a) eqn:E.
+    + intro H. injection H as <- <-. exists cid. rewrite Enew. auto.
+    + intro H. destruct (P4 x l i H) as (c & A & B & C). exists c. rewrite Eold by (eapply Hclt; eauto). auto.
+  - intros x. rewrite EsT, Hget. cbn [lookup_b]. destruct (N.eqb x a). discriminate. apply P40.
+  - intros x l i Hf. cbn [lookup_b]. destruct (N.eqb x a) eqn:E.
+    + apply N.eqb_eq in E. subst x. right. rewrite (once_unique BS I0 a l i (BImp ln imp) HO Hf Hin). reflexivity.
+    + apply P5. exact Hf.
+  - intros x l i. cbn [lookup_b]. destruct (N.eqb x a) eqn:E.
+    + intro H. injection H as <- <-. apply N.eqb_eq in E. subst x. exact Hin.
+    + apply P6.
+  - rewrite Eu. exact P7.
+  - intros ln0 x l i H. destruct (P8 ln0 x l i H) as [(c & A & B & C & D)|[F (a0 & stk & ln' & Hi & Hp)]].
+    + left. exists c. rewrite Ecs, app_length, Eold by exact A. cbn [length]. repeat split; auto. lia.
+    + right. split. exact F. exists a0, stk, ln'. split. rewrite Ed. exact Hi. exact Hp.
+Qed.
+
+(* ---------- the combined invariant ---------- *)
+Section U2.
+Variables (BS : list (name * bsrc)) (I0 : list name) (lm : lvl).
+Let T := l_b lm.
+Let FB := rev BS ++ others I0.
+Hypothesis HO : Once BS (others I0).
+Hypothesis HP : forall y, In y (l_P lm) -> In y I0.
+
+Record Inv3 (exp : expmap) (l : lvl) (L' : list lvl) (acc : list name) (accs : list (list name)) (ex : list nat)
+            (s : st) (e : env) (tr : list rd) (Lf : list lvl) (Mdyn : list (name * bsrc)) (Mb : frame) : Prop := mkInv3 {
+  v_f : Inv2 exp l L' acc accs ex (er s) e tr;
+  v_L : l :: L' = Lf ++ [lm];
+  v_u : UI T BS I0 exp s Mdyn tr;
+  v_e : EnvU e Mb;
+  v_fin : ffinal Mb = FB;
+  v_dyn : fdyn Mb = (if is_nil Lf then Mdyn else FB);
+  v_own : Own1 Lf lm FB }.
+
+Definition Post3 (exp : expmap) (l : lvl) (L' : list lvl) (acc : list name) (accs : list (list name)) (ex : list nat)
+                 (s : st) (e : env) (tr : list rd) (Lf : list lvl) (Mdyn : list (name * bsrc)) (Mb : frame)
+                 (s' : st) (rds : list rd) : Prop :=
+  exists exp', ext (next_id s) exp exp' /\ Inv3 exp' l L' acc accs ex s' e (tr ++ rds) Lf Mdyn Mb /\
+               lineno s' = lineno s /\ next_id s <= next_id s'.
+
+Lemma Inv3_with_ln : forall exp l L' acc accs ex s e tr Lf Mdyn Mb ln,
+  Inv3 exp l L' acc accs ex s e tr Lf Mdyn Mb -> Inv3 exp l L' acc accs ex (with_ln s ln) e tr Lf Mdyn Mb.
+Proof.
+  intros. destruct H. constructor; auto. rewrite er_with_ln. apply Inv2_with_ln. exact v_f0.
+  eapply UI_same; [| | | |exact v_u0]; auto.
+Qed.
+
+Lemma Post3_refl : forall exp l L' acc accs ex s e tr Lf Mdyn Mb,
+  Inv3 exp l L' acc accs ex s e tr Lf Mdyn Mb -> Post3 exp l L' acc accs ex s e tr Lf Mdyn Mb s [].
+Proof. intros. exists exp. split. apply ext_refl. rewrite app_nil_r. auto. Qed.
+
+Lemma Post3_seq : forall exp l L' acc accs ex s e tr Lf Mdyn Mb s1 r1 s2 r2,
+  Post3 exp l L' acc accs ex s e tr Lf Mdyn Mb s1 r1 ->
+  (forall exp1, Inv3 exp1 l L' acc accs ex s1 e (tr ++ r1) Lf Mdyn Mb ->
+                Post3 exp1 l L' acc accs ex s1 e (tr ++ r1) Lf Mdyn Mb s2 r2) ->
+  Post3 exp l L' acc accs ex s e tr Lf Mdyn Mb s2 (r1 ++ r2).
+Proof.
+  intros exp l L' acc accs ex s e tr Lf Mdyn Mb s1 r1 s2 r2 (exp1 & X1 & I1 & Ln1 & N1) H2.
+  destruct (H2 exp1 I1) as (exp2 & X2 & I2 & Ln2 & N2).
+  exists exp2. split. eapply ext_trans; [exact N1|exact X1|exact X2].
+  rewrite app_assoc. split. exact I2. split. congruence. lia.
+Qed.
+
+Lemma Inv3_def_lt : forall exp l L' acc accs ex s e tr Lf Mdyn Mb, Inv3 exp l L' acc accs ex s e tr Lf Mdyn Mb ->
+  forall d stk ln, In (d, stk, ln) (deferred s) -> forall i, In i stk -> i < next_id s.
+Proof. intros. apply (st_def _ _ _ _ _ (i_st _ _ _ _ _ _ _ _ _ (v_f _ _ _ _ _ _ _ _ _ _ _ _ H)) _ _ _ H0 i H1). Qed.
+
+Lemma load_u3 : forall exp l L' acc accs ex s e tr Lf Mdyn Mb x a,
+  Inv3 exp l L' acc accs ex s e tr Lf Mdyn Mb ->
+  Post3 exp l L' acc accs ex s e tr Lf Mdyn Mb (load s (stack_of (l :: L')) (x :: a)) [(lineno s, x, resolve x e)].
+Proof.
+  intros exp l L' acc accs ex s e tr Lf Mdyn Mb x a H3. pose proof H3 as [HI HL HU HEU Hfin Hdyn Hown].
+  destruct Lf as [|k Lf'].
+  - (* module level *)
+    cbn in HL. injection HL as -> ->. cbn [is_nil] in Hdyn.
+    destruct (load_inv _ _ _ _ _ _ _ _ _ x a HI) as (exp' & X & I' & Ln & Nx & Fd). cbv zeta in I', Ln, Nx, Fd.
+    rewrite <- er_load in I', Ln, Nx.
+    pose proof (i_env _ _ _ _ _ _ _ _ _ HI) as HE. destruct e as [|f [|? ?]]; try contradiction. cbn in HEU. subst f.
+    exists exp'. split. exact X. split; [|split; [exact Ln|exact Nx]].
+    constructor.
+    + exact I'.
+    + reflexivity.
+    + apply imm_u; auto.
+      * pose proof (Inv2_fd _ _ _ _ _ _ _ _ _ HI) as F. exact F.
+      * eapply UI_ext; [exact X| |exact HU]. eapply Inv3_def_lt; eauto.
+    + reflexivity.
+    + exact Hfin.
+    + exact Hdyn.
+    + exact Hown.
+  - (* inside a function or lambda body: two deferrals *)
+    cbn in HL. injection HL as <- HL'. destruct L' as [|l' L'']. destruct Lf'; discriminate.
+    assert (HL : l :: l' :: L'' = (l :: Lf') ++ [lm]) by (cbn; rewrite HL'; reflexivity).
+    cbn [is_nil] in Hdyn.
+    destruct HI as [HS HX Hexlt HC HE HT].
+    unfold load. change (in_fd s) with (in_fd (er s)). rewrite (st_fd _ _ _ _ _ HS). cbn [length Nat.eqb negb].
+    destruct (defer_step exp l l' L'' accs acc ex (er s) e tr x a HS HX HC HE HT)
+      as (exp1 & X1 & S1 & C1 & T1 & Ln1 & N1 & M1 & Fd1).
+    rewrite <- er_defer_load in S1, T1, Ln1, N1.
+    set (s1 := defer_load s (stack_of (l :: l' :: L'')) (x :: a)) in *.
+    assert (U1 : UI T BS I0 exp1 s1 Mdyn (tr ++ [(lineno s, x, resolve x e)])).
+    { eapply (defer_u T BS I0 exp l l' L'' accs acc ex s e tr x a Mdyn Mb (l :: Lf') lm exp1); eauto. }
+    destruct (defer_step exp1 l l' L'' accs acc ex (er s1) e _ x a S1 HX C1 HE T1)
+      as (exp2 & X2 & S2 & C2 & T2 & Ln2 & N2 & M2 & Fd2).
+    rewrite <- er_defer_load in S2, T2, Ln2, N2.
+    set (s2 := defer_load s1 (stack_of (l :: l' :: L'')) (x :: a)) in *.
+    assert (U2 : UI T BS I0 exp2 s2 Mdyn ((tr ++ [(lineno s, x, resolve x e)]) ++ [(lineno s1, x, resolve x e)])).
+    { eapply (defer_u T BS I0 exp1 l l' L'' accs acc ex s1 e _ x a Mdyn Mb (l :: Lf') lm exp2); eauto.
+      intros i Hi. specialize (Hexlt i Hi). cbn [next_id er] in *. lia. }
+    assert (Eln : lineno s1 = lineno s) by exact Ln1.
+    exists exp2. split. { eapply ext_trans; [|exact X1|exact X2]. cbn [next_id er] in N1. exact N1. }
+    split; [|split; [cbn [lineno er] in *; congruence | cbn [next_id er] in *; lia]].
+    constructor; auto.
+    + constructor; auto.
+      * intros i Hi. specialize (Hexlt i Hi). cbn [next_id er] in *. lia.
+      * eapply TrI_perm; [|exact T2]. intro r. cbn [lineno er] in *. rewrite Ln1, !in_app_iff. cbn. tauto.
+    + eapply UI_perm; [|exact U2]. intro r. rewrite Eln, !in_app_iff. cbn. tauto.
+Qed.
+
+Lemma lb_not_T : forall exp l L' acc accs ex s e tr Lf Mdyn Mb,
+  Inv3 exp l L' acc accs ex s e tr Lf Mdyn Mb -> Lf <> [] -> l_b l <> T /\ exists l' L'', L' = l' :: L''.
+Proof.
+  intros exp l L' acc accs ex s e tr Lf Mdyn Mb H3 HLf. destruct H3 as [HI HL _ _ _ _ _].
+  destruct Lf as [|k Lf']. congruence. cbn in HL. injection HL as <- HL'.
+  assert (Hlm : In lm L') by (rewrite HL'; apply in_app_iff; right; left; reflexivity).
+  split.
+  - intro E. pose proof (st_nodup _ _ _ _ _ (i_st _ _ _ _ _ _ _ _ _ HI)) as Hnd.
+    apply (b_distinct l L' lm Hnd Hlm). symmetry. exact E.
+  - destruct L' as [|l' L'']. contradiction. eauto.
+Qed.
+
+Lemma AllOther_bind : forall f n, AllOther f -> AllOther (bind n BOther f).
+Proof.
+  intros f n [A1 A2]. split; [|exact A2]. intros x b. cbn [fdyn bind lookup_b]. destruct (N.eqb x n). congruence. apply A1.
+Qed.
+
+Lemma store_name_u3 : forall exp l L' acc accs ex s e tr Lf Mdyn Mb n,
+  Inv3 exp l L' acc accs ex s e tr Lf Mdyn Mb -> n <> n_star -> In n (l_B l) -> (Lf = [] -> In (n, BOther) BS) ->
+  let s' := store true s (stack_of (l :: L')) [n] Plain in
+  Inv3 exp l L' (acc ++ [n]) accs ex s' (ebind n BOther e) tr Lf
+       (if is_nil Lf then (n, BOther) :: Mdyn else Mdyn) (if is_nil Lf then bind n BOther Mb else Mb) /\
+  next_id s' = next_id s /\ lineno s' = lineno s.
+Proof.
+  intros exp l L' acc accs ex s e tr Lf Mdyn Mb n H3 Hn Hin HBS. cbv zeta.
+  pose proof H3 as [HI HL HU HEU Hfin Hdyn Hown].
+  destruct (store_name_inv _ _ _ _ _ _ _ _ _ n BOther HI Hn Hin) as (I1 & N1 & Ln1 & _). cbv zeta in I1, N1, Ln1.
+  rewrite <- er_store_name with (v := Plain) in I1, N1, Ln1.
+  split; [|split; [exact N1|exact Ln1]].
+  assert (Etop : top (stack_of (l :: L')) = l_b l) by apply stack_top.
+  destruct Lf as [|k Lf'].
+  - cbn in HL. injection HL as -> ->. cbn [is_nil] in *.
+    destruct (UI_set_top_plain T BS I0 exp s Mdyn tr n HO (HBS eq_refl) HU) as [Hno U1].
+    rewrite store_true_noreport in * by (rewrite Etop; exact Hno). rewrite Etop in *.
+    pose proof (i_env _ _ _ _ _ _ _ _ _ HI) as HE. destruct e as [|f [|? ?]]; try contradiction. cbn in HEU. subst f.
+    constructor; auto.
+    + reflexivity.
+    + cbn [fdyn bind]. rewrite Hdyn. reflexivity.
+  - destruct (lb_not_T _ _ _ _ _ _ _ _ _ _ _ _ H3) as [HlT (l' & L'' & ->)]. discriminate. cbn [is_nil] in *.
+    assert (Hno : forall c, dict_get (scope_dict s (l_b l)) [n] <> Some (Chk c)).
+    { intros c Hc. apply dict_get_In' in Hc. apply (u_plain _ _ _ _ _ _ _ HU) in Hc; auto. discriminate. }
+    rewrite store_true_noreport in * by (rewrite Etop; exact Hno). rewrite Etop in *.
+    pose proof (i_env _ _ _ _ _ _ _ _ _ HI) as HE. destruct e as [|f [|f' e']]; try contradiction.
+    destruct HEU as [HA HEU].
+    constructor; auto.
+    + apply UI_set_other; auto.
+    + cbn [ebind with_head head hd EnvU]. split. apply AllOther_bind. exact HA. exact HEU.
+Qed.
+
+(* ---------- scopes: push, pop ---------- *)
+Lemma push_t : forall s stk ic u, SInv (er s) ->
+  push s stk ic false u = (stk ++ [next_id s], snd (new_scope s KNormal [])).
+Proof.
+  intros s stk ic u H. unfold push.
+  assert (E1 : filter (fun i => negb (scope_is_class s i)) stk = stk).
+  { apply filter_all. intros x _. rewrite <- scope_is_class_er, (sv_nocls _ H). reflexivity. }
+  rewrite E1.
+  assert (E2 : scope_dict s delayed_id = []).
+  { pose proof (sv_delayed _ H) as E. rewrite scope_dict_er in E. unfold erd in E. apply map_eq_nil in E. exact E. }
+  rewrite E2. cbn [negb andb]. rewrite andb_false_r. destruct ic; reflexivity.
+Qed.
+
+Lemma T_lt : forall exp l L' acc accs ex s e tr Lf Mdyn Mb,
+  Inv3 exp l L' acc accs ex s e tr Lf Mdyn Mb -> T < next_id s.
+Proof.
+  intros exp l L' acc accs ex s e tr Lf Mdyn Mb [HI HL _ _ _ _ _].
+  apply (st_ids _ _ _ _ _ (i_st _ _ _ _ _ _ _ _ _ HI) T). rewrite HL, stack_of_snoc.
+  apply in_app_iff. left. apply in_app_iff. right. left. reflexivity.
+Qed.
+
+Lemma pop_plain_t : forall T0 BS0 I00 exp s Mdyn tr i, UI T0 BS0 I00 exp s Mdyn tr -> i <> T0 -> pop s i = s.
+Proof. intros T0 BS0 I00 exp s Mdyn tr i HU Hi. unfold pop. apply report_unused_plain. intros k e0 Hin. eapply (u_plain _ _ _ _ _ _ _ HU); eauto. Qed.
+
+Lemma open_scope_u3 : forall exp l L' acc accs ex s e tr Lf Mdyn Mb R,
+  Inv3 exp l L' acc accs ex s e tr Lf Mdyn Mb ->
+  let A := next_id s in
+  let s1 := snd (new_scope s KNormal []) in
+  Inv3 (upd exp A R) l L' acc accs (A :: ex) s1 e tr Lf Mdyn Mb /\ next_id s1 = S A /\ lineno s1 = lineno s /\
+  ext A exp (upd exp A R) /\ ~ In A (stack_of (l :: L')) /\ A <> delayed_id /\ A <> T.
+Proof.
+  intros exp l L' acc accs ex s e tr Lf Mdyn Mb R H3. cbv zeta. pose proof H3 as [HI HL HU HEU Hfin Hdyn Hown].
+  destruct (open_scope exp l L' acc accs ex (er s) e tr R HI) as (I1 & Nx1 & Ln1 & Fd1 & Hempty & X1 & HAoff & HAd).
+  cbn [next_id er] in *.
+  destruct (er_new_scope s KNormal []) as [_ F2]. cbn [erd map] in F2. rewrite F2 in I1.
+  pose proof (T_lt _ _ _ _ _ _ _ _ _ _ _ _ H3) as HT.
+  split; [|repeat split; auto; try lia].
+  constructor; auto.
+  apply UI_newscope.
+  - apply fresh_er. apply (sv_fresh _ (st_sinv _ _ _ _ _ (i_st _ _ _ _ _ _ _ _ _ HI))).
+  - lia.
+  - intros key v [].
+  - eapply UI_ext; [exact X1| |exact HU]. eapply Inv3_def_lt; eauto.
+Qed.
+
+Lemma params_close_u3 : forall exp l L' acc accs ex s e tr Lf Mdyn Mb A stk ps,
+  Inv3 exp l L' acc accs (A :: ex) s e tr Lf Mdyn Mb -> A < next_id s -> A <> delayed_id -> ~ In A (stack_of (l :: L')) ->
+  A <> T -> (forall x, In x (exp A) <-> In x ps) -> Forall (fun p => p <> n_star) ps ->
+  let s' := fold_left (fun s p => store true s (stk ++ [A]) [p] Plain) ps s in
+  Inv3 exp l L' acc accs ex s' e tr Lf Mdyn Mb /\ lineno s' = lineno s /\ next_id s' = next_id s.
+Proof.
+  intros exp l L' acc accs ex s e tr Lf Mdyn Mb A stk ps H3 HA HAd Hoff HAT Hexp Hns. cbv zeta.
+  pose proof H3 as [HI HL HU HEU Hfin Hdyn Hown].
+  destruct (params_close exp l L' acc accs ex (er s) e tr A stk ps HI) as (I1 & Ln1 & Nx1 & _); auto.
+  rewrite <- er_store_names in I1, Ln1, Nx1.
+  split; [|split; [exact Ln1|exact Nx1]].
+  constructor; auto.
+  clear - HU HAT. revert s HU. induction ps as [|p ps IH]; intros s HU; cbn [fold_left]. exact HU.
+  apply IH. rewrite store_true_noreport.
+  - rewrite top_snoc. apply UI_set_other; auto.
+  - rewrite top_snoc. intros c Hc. apply dict_get_In' in Hc. apply (u_plain _ _ _ _ _ _ _ HU) in Hc; auto. discriminate.
+Qed.
+
+(* ---------- entering and leaving the body of a function or lambda ---------- *)
+Lemma EnvU_enter : forall e Mb F, e <> [] -> EnvU e Mb -> AllOther F -> EnvU (F :: finalize e) (finM Mb).
+Proof.
+  intros e Mb F He HU HA. destruct e as [|f r]. congruence.
+  change (EnvU (F :: finalize (f :: r)) (finM Mb)) with (AllOther F /\ EnvU (finalize (f :: r)) (finM Mb)).
+  split. exact HA. apply EnvU_finalize. exact HU.
+Qed.
+
+Lemma enter_u3 : forall exp l L' acc accs ex s e tr Lf Mdyn Mb A P own Bn F,
+  Inv3 exp l L' acc accs ex s e tr Lf Mdyn Mb ->
+  A < next_id s -> A <> delayed_id -> ~ In A (stack_of (l :: L')) -> ~ In A ex ->
+  (forall x, In x (exp A) <-> In x P) ->
+  (own = [] \/ exists nm, own = [nm] /\ nm <> n_star) -> incl own (l_B l) ->
+  fk F = FFunction -> frame_static (mkL [A] (next_id s) P own Bn) F -> names_eq (fdyn F) (P ++ []) -> AllOther F ->
+  (Lf = [] -> forall x, In x own -> forall li ii, lookup_b x FB <> Some (BImp li ii)) ->
+  let B := next_id s in
+  let lv := mkL [A] B P own Bn in
+  let s1 := snd (new_scope (with_fd s true) KNormal []) in
+  let s2 := match own with [] => s1 | nm :: _ => set_in_scope s1 B [nm] Plain end in
+  let exp' := upd exp B (own ++ Bn) in
+  Inv3 exp' lv (l :: L') [] (acc :: accs) ex s2 (F :: finalize e) tr (lv :: Lf) Mdyn (finM Mb) /\
+  ext B exp exp' /\ lineno s2 = lineno s /\ next_id s2 = S B.
+Proof.
+  intros exp l L' acc accs ex s e tr Lf Mdyn Mb A P own Bn F H3 HA HAd HAoff HAex HAexp Hown Hownin HFk HFs HFd HFA HOwn1.
+  cbv zeta. pose proof H3 as [HI HL HU HEU Hfin Hdyn Hown0]. destruct HI as [HS HX Hexlt HC HE HT].
+  destruct (enter_level exp l L' acc accs ex (er s) e tr A P own Bn F HS HX HC HE HT Hexlt)
+    as (S7 & X7 & C7 & E7 & T7 & Xe & Ln7 & Nx7); auto.
+  cbv zeta in S7, X7, C7, E7, T7, Xe, Ln7, Nx7. cbn [next_id er] in *.
+  set (B := next_id s) in *. set (lv := mkL [A] B P own Bn) in *.
+  set (s1 := snd (new_scope (with_fd s true) KNormal [])).
+  set (s2 := match own with [] => s1 | nm :: _ => set_in_scope s1 B [nm] Plain end).
+  assert (Er : er s2 = match own with [] => snd (new_scope (with_fd (er s) true) KNormal [])
+                       | nm :: _ => set_in_scope (snd (new_scope (with_fd (er s) true) KNormal [])) B [nm] Plain end).
+  { destruct (er_new_scope (with_fd s true) KNormal []) as [_ F2]. cbn [erd map] in F2. rewrite er_with_fd in F2.
+    unfold s2, s1. destruct own as [|nm r]. symmetry. exact F2. rewrite er_set_in_scope. rewrite <- F2. reflexivity. }
+  rewrite <- Er in S7, T7, Ln7, Nx7.
+  pose proof (T_lt _ _ _ _ _ _ _ _ _ _ _ _ H3) as HTlt. fold B in HTlt.
+  assert (He : e <> []). { destruct e. destruct L'; contradiction. discriminate. }
+  split; [|split; [exact Xe|split; [exact Ln7|exact Nx7]]].
+  constructor.
+  - constructor; auto. intros i Hi. cbn [next_id er] in *. rewrite Nx7. specialize (Hexlt i Hi). lia.
+  - cbn. rewrite HL. reflexivity.
+  - assert (U1 : UI T BS I0 (upd exp B (own ++ Bn)) s1 Mdyn tr).
+    { unfold s1. apply UI_newscope.
+      + apply fresh_er. apply (sv_fresh _ (st_sinv _ _ _ _ _ HS)).
+      + cbn [next_id with_fd]. fold B. lia.
+      + intros key v [].
+      + apply (UI_same T BS I0 _ s); try reflexivity. auto.
+        eapply UI_ext; [exact Xe| |exact HU]. fold B. eapply Inv3_def_lt; eauto. }
+    unfold s2. destruct own as [|nm r]. exact U1. apply UI_set_other. lia. exact U1.
+  - apply EnvU_enter; auto.
+  - exact Hfin.
+  - cbn [is_nil fdyn finM]. exact Hfin.
+  - intros x Hx li ii. destruct Lf as [|k Lf'].
+    + cbn [last] in Hx. cbn [l_own lv] in Hx. apply HOwn1; auto.
+    + apply (Hown0 x). change (last (lv :: k :: Lf') lm) with (last (k :: Lf') lm) in Hx. exact Hx.
+Qed.
+
+Lemma leave_u3 : forall exp0 l L' acc accs ex s0 e tr0 Lf Mdyn Mb exp5 lv s5 e5 tr5 Mb5,
+  Inv3 exp0 l L' acc accs ex s0 e tr0 Lf Mdyn Mb ->
+  Inv3 exp5 lv (l :: L') (l_B lv) (acc :: accs) ex s5 e5 tr5 (lv :: Lf) Mdyn Mb5 -> next_id s0 <= next_id s5 ->
+  Inv3 exp5 l L' acc accs ex (with_fd s5 (negb (Nat.eqb (length (l :: L')) 1))) e tr5 Lf Mdyn Mb.
+Proof.
+  intros exp0 l L' acc accs ex s0 e tr0 Lf Mdyn Mb exp5 lv s5 e5 tr5 Mb5 H0 H5 Hn.
+  destruct H0 as [HI HL HU HEU Hfin Hdyn Hown]. destruct H5 as [HI5 HL5 HU5 _ _ _ _].
+  destruct (leave_level exp5 lv l L' accs acc ex (er s5) (i_st _ _ _ _ _ _ _ _ _ HI5) (i_cx _ _ _ _ _ _ _ _ _ HI5)) as (S9 & C9).
+  constructor; auto.
+  - rewrite er_with_fd. constructor.
+    + exact S9.
+    + apply (i_ex _ _ _ _ _ _ _ _ _ HI).
+    + intros i Hi. pose proof (i_exlt _ _ _ _ _ _ _ _ _ HI i Hi). cbn [next_id er with_fd] in *. lia.
+    + exact C9.
+    + apply (i_env _ _ _ _ _ _ _ _ _ HI).
+    + eapply TrI_same; [| |apply (i_tr _ _ _ _ _ _ _ _ _ HI5)]; reflexivity.
+  - apply (UI_same T BS I0 exp5 s5); try reflexivity. auto. exact HU5.
+Qed.
+
+(* ---------- expressions ---------- *)
+Lemma AllOther_fun_frame : forall ps body_bs static, (forall x b, In (x, b) body_bs -> b = BOther) ->
+  AllOther (fun_frame ps body_bs static).
+Proof.
+  intros ps body_bs static H. unfold fun_frame. split; cbn [fdyn ffinal]; intros x b Hl.
+  - eapply lookup_b_others_other; eauto.
+  - apply lookup_rev_In in Hl as [Hl|Hl]. eapply H; eauto. eapply lookup_b_others_other; eauto.
+Qed.
+
+Definition PUE (x : expr) : Prop := s2_expr x = true ->
+  forall exp l L' acc accs ex s e tr Lf Mdyn Mb, Inv3 exp l L' acc accs ex s e tr Lf Mdyn Mb ->
+  Post3 exp l L' acc accs ex s e tr Lf Mdyn Mb (vexpr true x (stack_of (l :: L')) s) (sem_expr (lineno s) e x).
+
+Lemma exprs_u3 : forall es, Forall PUE es -> forallb s2_expr es = true ->
+  forall exp l L' acc accs ex s e tr Lf Mdyn Mb, Inv3 exp l L' acc accs ex s e tr Lf Mdyn Mb ->
+  Post3 exp l L' acc accs ex s e tr Lf Mdyn Mb (vexpr_list true es (stack_of (l :: L')) s) (sem_exprs (lineno s) e es).
+Proof.
+  intros es HF. induction HF as [|x es Hx HF IH]; intros Hs exp l L' acc accs ex s e tr Lf Mdyn Mb HI.
+  - apply Post3_refl. exact HI.
+  - cbn in Hs. apply andb_true_iff in Hs as [H1 H2].
+    unfold vexpr_list, sem_exprs. cbn [fold_left flat_map].
+    assert (Eln : lineno (vexpr true x (stack_of (l :: L')) s) = lineno s).
+    { destruct (Hx H1 _ _ _ _ _ _ _ _ _ _ _ _ HI) as (? & _ & _ & E & _). exact E. }
+    eapply Post3_seq.
+    + apply (Hx H1 _ _ _ _ _ _ _ _ _ _ _ _ HI).
+    + intros exp1 I1. pose proof (IH H2 _ _ _ _ _ _ _ _ _ _ _ _ I1) as P. rewrite Eln in P. exact P.
+Qed.
+
+Lemma Inv3_sinv : forall exp l L' acc accs ex s e tr Lf Mdyn Mb,
+  Inv3 exp l L' acc accs ex s e tr Lf Mdyn Mb -> SInv (er s).
+Proof. intros. apply (st_sinv _ _ _ _ _ (i_st _ _ _ _ _ _ _ _ _ (v_f _ _ _ _ _ _ _ _ _ _ _ _ H))). Qed.
+
+Lemma Inv3_fd : forall exp l L' acc accs ex s e tr Lf Mdyn Mb,
+  Inv3 exp l L' acc accs ex s e tr Lf Mdyn Mb -> in_fd s = negb (Nat.eqb (length (l :: L')) 1).
+Proof. intros. apply (Inv2_fd _ _ _ _ _ _ _ _ _ (v_f _ _ _ _ _ _ _ _ _ _ _ _ H)). Qed.
+
+Lemma expr_u3 : forall x, PUE x.
+Proof.
+  intro x. induction x using expr_ind' with (Q := fun _ => True); try exact I; unfold PUE; intros Hs exp l L' acc accs ex s e tr Lf Mdyn Mb HI.
+  - (* ELoad *) cbn [vexpr sem_expr]. apply load_u3. exact HI.
+  - (* EOp *) cbn [vexpr sem_expr s2_expr] in *. rewrite vgo_eq_t, sgo_eq. rewrite s2go_eq in Hs. apply exprs_u3; auto.
+  - (* EAttr *) cbn [vexpr sem_expr s2_expr] in *. apply IHx; auto.
+  - (* ELambda *)
+    cbn [s2_expr] in Hs. rewrite s2go_eq in Hs. apply andb_true_iff in Hs as [Hs Hbody]. apply andb_true_iff in Hs as [Hps Hds].
+    rewrite vexpr_lambda_eq_t, sem_lambda_eq.
+    rewrite push_t by (eapply Inv3_sinv; eauto).
+    set (stk := stack_of (l :: L')). set (A := next_id s). set (s1 := snd (new_scope s KNormal [])).
+    cbv beta iota zeta. rewrite removelast_snoc.
+    destruct (open_scope_u3 exp l L' acc accs ex s e tr Lf Mdyn Mb ps HI) as (I1 & Nx1 & Ln1 & X1 & HAoff & HAd & HAT).
+    fold A in I1, Nx1, X1, HAoff, HAd, HAT. fold s1 in I1, Nx1, Ln1. fold stk in HAoff.
+    destruct (exprs_u3 ds H Hds _ _ _ _ _ _ _ _ _ _ _ _ I1) as (exp2 & X2 & I2 & Ln2 & Nx2).
+    fold stk in I2, Ln2, Nx2. set (s2 := vexpr_list true ds stk s1) in *.
+    assert (HexpA : forall y, In y (exp2 A) <-> In y ps).
+    { intro y. rewrite X2 by lia. unfold upd. rewrite Nat.eqb_refl. reflexivity. }
+    assert (Hnsps : Forall (fun p => p <> n_star) ps).
+    { apply Forall_forall. intros p Hp. rewrite forallb_forall in Hps. apply not_star_neq. apply Hps. exact Hp. }
+    destruct (params_close_u3 exp2 l L' acc accs ex s2 _ _ Lf Mdyn Mb A stk ps I2) as (I3 & Ln3 & Nx3); auto; try lia.
+    fold stk. set (s3 := fold_left (fun s p => store true s (stk ++ [A]) [p] Plain) ps s2) in *.
+    assert (HS3 : SInv (er (with_fd s3 true))) by (rewrite er_with_fd; apply SInv_with_fd; eapply Inv3_sinv; eauto).
+    rewrite push_t by exact HS3. cbv beta iota zeta. change (next_id (with_fd s3 true)) with (next_id s3).
+    set (B := next_id s3).
+    assert (HAex : ~ In A ex).
+    { intro Hin. pose proof (i_exlt _ _ _ _ _ _ _ _ _ (v_f _ _ _ _ _ _ _ _ _ _ _ _ HI) A Hin) as Hlt. cbn [next_id er] in Hlt. unfold A in Hlt. lia. }
+    destruct (fun_frame_ok A B ps [] [] []) as (HFk & HFs & HFd). { intro y. reflexivity. }
+    cbn [map] in HFs.
+    destruct (enter_u3 exp2 l L' acc accs ex s3 e _ Lf Mdyn Mb A ps [] [] (fun_frame ps [] []) I3)
+      as (I4 & Xe & Ln4 & Nx4); auto; try lia.
+    { intros y []. } { apply AllOther_fun_frame. intros y b []. }
+    cbv zeta in I4, Xe, Ln4, Nx4. fold B in I4, Xe, Ln4, Nx4.
+    set (lv := mkL [A] B ps [] []) in *. set (s4 := snd (new_scope (with_fd s3 true) KNormal [])) in *.
+    set (exp4 := upd exp2 B ([] ++ [])) in *.
+    unfold stk at 1. rewrite stackB_eq with (P := ps) (own := []) (Bn := []). fold lv.
+    destruct (IHx Hbody _ _ _ _ _ _ _ _ _ _ _ _ I4) as (exp5 & X5 & I5 & Ln5 & Nx5).
+    set (s5 := vexpr true x (stack_of (lv :: l :: L')) s4) in *.
+    (* leaving: the two pops report nothing *)
+    rewrite !top_snoc.
+    assert (HBT : B <> T). { pose proof (T_lt _ _ _ _ _ _ _ _ _ _ _ _ I3). unfold B. lia. }
+    rewrite (pop_plain_t T BS I0 exp5 s5 Mdyn _ B (v_u _ _ _ _ _ _ _ _ _ _ _ _ I5) HBT).
+    assert (U6 : UI T BS I0 exp5 (with_fd s5 (in_fd s3)) Mdyn ((tr ++ sem_exprs (lineno s1) e ds) ++ sem_expr (lineno s4) (fun_frame ps [] [] :: finalize e) x)).
+    { apply (UI_same T BS I0 exp5 s5); try reflexivity. auto. apply (v_u _ _ _ _ _ _ _ _ _ _ _ _ I5). }
+    rewrite (pop_plain_t T BS I0 exp5 _ Mdyn _ A U6 HAT).
+    rewrite (Inv3_fd _ _ _ _ _ _ _ _ _ _ _ _ I3).
+    pose proof (leave_u3 exp l L' acc accs ex s e tr Lf Mdyn Mb exp5 lv s5 _ _ _ HI I5) as I6.
+    exists exp5. split.
+    { intros i Hi. fold A in Hi. rewrite (X5 i), (Xe i), (X2 i), (X1 i) by lia. reflexivity. }
+    split. { rewrite Ln1 in *. assert (Eln : lineno s4 = lineno s) by congruence. rewrite Eln in I6. rewrite app_assoc. apply I6. lia. }
+    split. cbn [lineno with_fd]. congruence. cbn [next_id with_fd]. lia.
+  - (* EComp *) cbn in Hs. discriminate.
 Qed.
